@@ -5,6 +5,7 @@ CONSTANTS
   EmitSched = FALSE
   MaxAppRollback = 2
   MaxTamper = 2
+  InitialHeight = 1
   Weak_EndHeightBeforeSaveBlock = FALSE
   Weak_SaveStateBeforeAppCommit = FALSE
   Weak_NoABCIResponsesSaved = FALSE
@@ -15,6 +16,7 @@ CONSTANTS
   Weak_NoEndHeightRepair = FALSE
   Weak_HandshakeAcceptsAppAhead = FALSE
   Weak_EmptyStoreAcceptsAppAhead = TRUE
+  Weak_NoInitialHeightBase = FALSE
 INIT Init
 NEXT Next
 INVARIANTS JournalWellFormed
